@@ -8,20 +8,20 @@ import (
 )
 
 // declare emits a variable declaration of type t and registers the variable.
-func (g *gen) declare(b *blk, s *scope, t *ty, d int) *vr {
+func (g *dmGen) declare(b *dmBlk, s *dmScope, t *dmTy, d int) *dmVr {
 	name := g.fresh("v")
 	mut := g.chance(1, 2)
 	kw := "let"
 	if mut {
 		kw = "var"
 	}
-	v := &vr{name: name, t: t, mut: mut, live: true}
+	v := &dmVr{name: name, t: t, mut: mut, live: true}
 	var e string
 	form := g.r.Intn(10)
-	if (t.k == kAnyStruct || t.k == kIface) && g.chance(3, 4) {
+	if (t.k == dmKAnyStruct || t.k == dmKIface) && g.chance(3, 4) {
 		// value of a known concrete type behind a wider static type
-		var u *ty
-		if t.k == kIface {
+		var u *dmTy
+		if t.k == dmKIface {
 			for _, c := range g.shuffledStructs() {
 				if c.conforms(t.iface) {
 					u = c.t
@@ -30,8 +30,8 @@ func (g *gen) declare(b *blk, s *scope, t *ty, d int) *vr {
 			}
 		} else {
 			u = g.valueType(1)
-			if u.k == kAnyStruct || u.k == kIface {
-				u = tInt
+			if u.k == dmKAnyStruct || u.k == dmKIface {
+				u = dmTInt
 			}
 		}
 		if u != nil {
@@ -46,7 +46,7 @@ func (g *gen) declare(b *blk, s *scope, t *ty, d int) *vr {
 		}
 	}
 	switch {
-	case t.k == kRef:
+	case t.k == dmKRef:
 		e = g.expr(s, t, d)
 		if g.chance(1, 2) {
 			b.add("%s %s = %s", kw, name, e)
@@ -55,11 +55,11 @@ func (g *gen) declare(b *blk, s *scope, t *ty, d int) *vr {
 		}
 		s.add(v)
 		return v
-	case form < 2 && t.k != kOpt && t.k != kAnyStruct && t.k != kIface && t.k != kArr && t.k != kDict && t.k != kCArr:
+	case form < 2 && t.k != dmKOpt && t.k != dmKAnyStruct && t.k != dmKIface && t.k != dmKArr && t.k != dmKDict && t.k != dmKCArr:
 		// inferred type
 		e = g.exact(s, t, d)
 		b.add("%s %s = %s", kw, name, e)
-	case form < 3 && t.k != kFun:
+	case form < 3 && t.k != dmKFun:
 		e = g.expr(s, t, d)
 		g.feat("static-cast")
 		b.add("%s %s = %s as %s", kw, name, e, t.String())
@@ -73,27 +73,27 @@ func (g *gen) declare(b *blk, s *scope, t *ty, d int) *vr {
 }
 
 // noteValue records what is statically known about the value an immutable variable was initialized with.
-func (g *gen) noteValue(v *vr, e string) {
+func (g *dmGen) noteValue(v *dmVr, e string) {
 	t := v.t
 	switch t.k {
-	case kOpt:
+	case dmKOpt:
 		if !v.mut && e != "nil" && !strings.Contains(e, "nil") && !strings.Contains(e, "?") && !strings.Contains(e, "[") &&
 			!strings.Contains(e, "(") {
 			// a plain literal or variable of the element type
-			if _, isNum := parseSmall(e); isNum || strings.HasPrefix(e, `"`) || e == "true" || e == "false" {
+			if _, isNum := dmParseSmall(e); isNum || strings.HasPrefix(e, `"`) || e == "true" || e == "false" {
 				v.nonNil = true
 			}
 		}
-	case kArr:
+	case dmKArr:
 		if strings.HasPrefix(e, "[") && strings.HasSuffix(e, "]") {
-			v.minLen = topLevelCommas(e[1:len(e)-1]) + 1
+			v.minLen = dmTopLevelCommas(e[1:len(e)-1]) + 1
 			if strings.TrimSpace(e[1:len(e)-1]) == "" {
 				v.minLen = 0
 			}
 		}
-	case kDict:
+	case dmKDict:
 		if strings.HasPrefix(e, "{") && strings.HasSuffix(e, "}") {
-			n := topLevelCommas(e[1:len(e)-1]) + 1
+			n := dmTopLevelCommas(e[1:len(e)-1]) + 1
 			for i := 0; i < n; i++ {
 				v.keys = append(v.keys, g.keyLit(t.key, i))
 			}
@@ -101,7 +101,7 @@ func (g *gen) noteValue(v *vr, e string) {
 	}
 }
 
-func parseSmall(e string) (int, bool) {
+func dmParseSmall(e string) (int, bool) {
 	if e == "" {
 		return 0, false
 	}
@@ -115,7 +115,7 @@ func parseSmall(e string) (int, bool) {
 	return n, true
 }
 
-func topLevelCommas(s string) int {
+func dmTopLevelCommas(s string) int {
 	depth, n := 0, 0
 	inStr := false
 	for i := 0; i < len(s); i++ {
@@ -145,13 +145,13 @@ func topLevelCommas(s string) int {
 }
 
 // stmts emits n statements into b.
-func (g *gen) stmts(b *blk, s *scope, n int, d int) {
+func (g *dmGen) stmts(b *dmBlk, s *dmScope, n int, d int) {
 	for i := 0; i < n; i++ {
 		g.stmt(b, s, d)
 	}
 }
 
-func (g *gen) stmt(b *blk, s *scope, d int) {
+func (g *dmGen) stmt(b *dmBlk, s *dmScope, d int) {
 	if s.ctx.view {
 		// view context: declarations only
 		g.declare(b, s, g.valueType(1), 1)
@@ -206,7 +206,7 @@ func (g *gen) stmt(b *blk, s *scope, d int) {
 	default:
 		if s.inLoop && g.chance(1, 2) {
 			b.open("if %s {", g.boolExpr(s, d-1))
-			b.add(pick(g, []string{"break", "continue"}))
+			b.add(dmPick(g, []string{"break", "continue"}))
 			b.close()
 			g.feat("break-continue")
 		} else if s.ctx.ret != nil && !s.ctx.noReturn && s.depth > 0 && g.chance(1, 2) {
@@ -220,21 +220,21 @@ func (g *gen) stmt(b *blk, s *scope, d int) {
 	}
 }
 
-func (g *gen) returnStmt(b *blk, s *scope, d int) {
-	if s.ctx.ret == nil || s.ctx.ret.k == kVoid {
+func (g *dmGen) returnStmt(b *dmBlk, s *dmScope, d int) {
+	if s.ctx.ret == nil || s.ctx.ret.k == dmKVoid {
 		b.add("return")
 		return
 	}
 	b.add("return %s", g.expr(s, s.ctx.ret, d-1))
 }
 
-func (g *gen) assign(b *blk, s *scope, d int) {
-	mv := s.find(func(v *vr) bool { return v.mut && !v.t.isRes() && v.t.k != kRef })
+func (g *dmGen) assign(b *dmBlk, s *dmScope, d int) {
+	mv := s.find(func(v *dmVr) bool { return v.mut && !v.t.isRes() && v.t.k != dmKRef })
 	if len(mv) == 0 {
 		g.declare(b, s, g.valueType(1), d)
 		return
 	}
-	v := pick(g, mv)
+	v := dmPick(g, mv)
 	g.feat("assignment")
 	b.add("%s = %s", v.name, g.expr(s, v.t, d))
 	v.minLen = 0
@@ -244,33 +244,33 @@ func (g *gen) assign(b *blk, s *scope, d int) {
 }
 
 // containerOp: mutation of arrays and dictionaries (locals, fields of local structs).
-func (g *gen) containerOp(b *blk, s *scope, d int) {
-	cs := s.find(func(v *vr) bool {
-		return (v.t.k == kArr || v.t.k == kDict) && !v.t.isRes() && (!v.field || !s.ctx.view)
+func (g *dmGen) containerOp(b *dmBlk, s *dmScope, d int) {
+	cs := s.find(func(v *dmVr) bool {
+		return (v.t.k == dmKArr || v.t.k == dmKDict) && !v.t.isRes() && (!v.field || !s.ctx.view)
 	})
 	// containers in fields of struct variables
 	type target struct {
 		e string
-		t *ty
-		v *vr
+		t *dmTy
+		v *dmVr
 	}
 	var ts []target
 	for _, v := range cs {
 		ts = append(ts, target{v.name, v.t, v})
 	}
-	for _, v := range s.varsKind(kStruct) {
+	for _, v := range s.varsKind(dmKStruct) {
 		for _, f := range v.t.comp.fields {
-			if (f.t.k == kArr || f.t.k == kDict) && !f.t.isRes() && f.access == "all" {
+			if (f.t.k == dmKArr || f.t.k == dmKDict) && !f.t.isRes() && f.access == "all" {
 				ts = append(ts, target{v.name + "." + f.name, f.t, nil})
 			}
 		}
 	}
 	if len(ts) == 0 {
-		g.declare(b, s, arr(g.primType()), d)
+		g.declare(b, s, dmArr(g.primType()), d)
 		return
 	}
-	t := pick(g, ts)
-	if t.t.k == kArr {
+	t := dmPick(g, ts)
+	if t.t.k == dmKArr {
 		g.feat("array-mutation")
 		switch g.r.Intn(8) {
 		case 0, 1, 2:
@@ -289,7 +289,7 @@ func (g *gen) containerOp(b *blk, s *scope, d int) {
 			}
 		case 5:
 			if t.v != nil && t.v.minLen > 0 {
-				b.add("let %s = %s.%s", g.fresh("rm"), t.e, pick(g, []string{"removeFirst()", "removeLast()", "remove(at: 0)"}))
+				b.add("let %s = %s.%s", g.fresh("rm"), t.e, dmPick(g, []string{"removeFirst()", "removeLast()", "remove(at: 0)"}))
 				g.shrinkLen(s, t.v)
 			} else {
 				b.open("if %s.length > 0 {", t.e)
@@ -330,11 +330,11 @@ func (g *gen) containerOp(b *blk, s *scope, d int) {
 			t.v.keys = nil
 		}
 	case 4:
-		if !s.ctx.view && t.t.key.k != kBool {
-			cnt := s.find(func(v *vr) bool { return v.mut && v.t.eq(tInt) && !v.field })
+		if !s.ctx.view && t.t.key.k != dmKBool {
+			cnt := s.find(func(v *dmVr) bool { return v.mut && v.t.eq(dmTInt) && !v.field })
 			body := "return true"
 			if len(cnt) > 0 {
-				c := pick(g, cnt)
+				c := dmPick(g, cnt)
 				body = fmt.Sprintf("%s = %s + 1; return %s < 3", c.name, c.name, c.name)
 			}
 			kn := g.fresh("k")
@@ -348,7 +348,7 @@ func (g *gen) containerOp(b *blk, s *scope, d int) {
 	}
 }
 
-func (g *gen) ifStmt(b *blk, s *scope, d int) {
+func (g *dmGen) ifStmt(b *dmBlk, s *dmScope, d int) {
 	g.feat("if")
 	b.open("if %s {", g.boolExpr(s, d-1))
 	g.stmts(b, s.child(), 1+g.r.Intn(2), d-1)
@@ -363,15 +363,15 @@ func (g *gen) ifStmt(b *blk, s *scope, d int) {
 	b.close()
 }
 
-func (g *gen) ifLet(b *blk, s *scope, d int) {
+func (g *dmGen) ifLet(b *dmBlk, s *dmScope, d int) {
 	g.feat("if-let")
-	var t *ty
+	var t *dmTy
 	var e string
-	ovs := s.find(func(v *vr) bool { return v.t.k == kOpt && !v.t.isRes() && !v.field })
-	dynv := s.find(func(v *vr) bool { return v.dyn != nil && !v.t.isRes() && v.dyn.k != kFun })
+	ovs := s.find(func(v *dmVr) bool { return v.t.k == dmKOpt && !v.t.isRes() && !v.field })
+	dynv := s.find(func(v *dmVr) bool { return v.dyn != nil && !v.t.isRes() && v.dyn.k != dmKFun })
 	switch {
 	case len(dynv) > 0 && g.chance(1, 2):
-		v := pick(g, dynv)
+		v := dmPick(g, dynv)
 		t = v.dyn
 		if g.chance(1, 4) {
 			t = g.primType()
@@ -379,21 +379,21 @@ func (g *gen) ifLet(b *blk, s *scope, d int) {
 		e = v.name + " as? " + t.String()
 		g.feat("if-let-cast")
 	case len(ovs) > 0 && g.chance(2, 3):
-		v := pick(g, ovs)
+		v := dmPick(g, ovs)
 		t = v.t.elem
 		e = v.name
 	default:
 		t = g.valueType(1)
-		if t.k == kFun {
-			t = tInt
+		if t.k == dmKFun {
+			t = dmTInt
 		}
-		e = g.optOperand(s, opt(t), d-1)
+		e = g.optOperand(s, dmOpt(t), d-1)
 	}
 	name := g.fresh("u")
-	kw := pick(g, []string{"let", "let", "var"})
+	kw := dmPick(g, []string{"let", "let", "var"})
 	b.open("if %s %s = %s {", kw, name, e)
 	cs := s.child()
-	cs.add(&vr{name: name, t: t, mut: kw == "var", live: true})
+	cs.add(&dmVr{name: name, t: t, mut: kw == "var", live: true})
 	g.stmts(b, cs, 1+g.r.Intn(2), d-1)
 	if g.chance(1, 2) {
 		b.closeOpen("} else {")
@@ -402,11 +402,11 @@ func (g *gen) ifLet(b *blk, s *scope, d int) {
 	b.close()
 }
 
-func (g *gen) whileStmt(b *blk, s *scope, d int) {
+func (g *dmGen) whileStmt(b *dmBlk, s *dmScope, d int) {
 	g.feat("while")
 	i := g.fresh("i")
 	b.add("var %s = 0", i)
-	s.add(&vr{name: i, t: tInt, live: true}) // not assignable by generated code
+	s.add(&dmVr{name: i, t: dmTInt, live: true}) // not assignable by generated code
 	b.open("while %s < %d {", i, 1+g.r.Intn(4))
 	b.add("%s = %s + 1", i, i)
 	cs := s.child()
@@ -415,78 +415,78 @@ func (g *gen) whileStmt(b *blk, s *scope, d int) {
 	b.close()
 }
 
-func (g *gen) forStmt(b *blk, s *scope, d int) {
+func (g *dmGen) forStmt(b *dmBlk, s *dmScope, d int) {
 	x := g.fresh("x")
 	cs := s.child()
 	cs.inLoop = true
-	as := s.find(func(v *vr) bool { return (v.t.k == kArr || v.t.k == kCArr) && !v.t.isRes() })
-	ds := s.find(func(v *vr) bool { return v.t.k == kDict && !v.t.isRes() })
+	as := s.find(func(v *dmVr) bool { return (v.t.k == dmKArr || v.t.k == dmKCArr) && !v.t.isRes() })
+	ds := s.find(func(v *dmVr) bool { return v.t.k == dmKDict && !v.t.isRes() })
 	switch g.r.Intn(7) {
 	case 0, 1:
 		if len(as) > 0 {
-			a := pick(g, as)
+			a := dmPick(g, as)
 			g.feat("for-in-array")
 			if g.chance(1, 3) {
 				i := g.fresh("i")
 				b.open("for %s, %s in %s {", i, x, a.name)
-				cs.add(&vr{name: i, t: tInt, live: true})
+				cs.add(&dmVr{name: i, t: dmTInt, live: true})
 			} else {
 				b.open("for %s in %s {", x, a.name)
 			}
-			cs.add(&vr{name: x, t: a.t.elem, live: true})
+			cs.add(&dmVr{name: x, t: a.t.elem, live: true})
 			break
 		}
 		fallthrough
 	case 2:
 		if len(ds) > 0 {
-			dv := pick(g, ds)
+			dv := dmPick(g, ds)
 			g.feat("for-in-dict-keys")
 			b.open("for %s in %s.keys {", x, dv.name)
-			cs.add(&vr{name: x, t: dv.t.key, live: true})
-			if dv.t.elem.k != kOpt {
+			cs.add(&dmVr{name: x, t: dv.t.key, live: true})
+			if dv.t.elem.k != dmKOpt {
 				y := g.fresh("y")
 				b.add("let %s = %s[%s]!", y, dv.name, x)
-				cs.add(&vr{name: y, t: dv.t.elem, live: true})
+				cs.add(&dmVr{name: y, t: dv.t.elem, live: true})
 			}
 			break
 		}
 		fallthrough
 	case 3:
 		g.feat("for-in-string")
-		b.open("for %s in %s {", x, g.expr(s, tString, 1))
-		cs.add(&vr{name: x, t: tChar, live: true})
+		b.open("for %s in %s {", x, g.expr(s, dmTString, 1))
+		cs.add(&dmVr{name: x, t: dmTChar, live: true})
 	case 4, 5:
 		g.feat("for-in-range")
 		b.open("for %s in %s {", x, g.rangeExpr(s, 1))
-		cs.add(&vr{name: x, t: tInt, live: true})
+		cs.add(&dmVr{name: x, t: dmTInt, live: true})
 	default:
-		t := arr(g.primType())
+		t := dmArr(g.primType())
 		g.feat("for-in-array")
 		b.open("for %s in %s {", x, g.exact(s, t, 2))
-		cs.add(&vr{name: x, t: t.elem, live: true})
+		cs.add(&dmVr{name: x, t: t.elem, live: true})
 	}
 	g.stmts(b, cs, 1+g.r.Intn(3), d-1)
 	b.close()
 }
 
-func (g *gen) switchStmt(b *blk, s *scope, d int) {
+func (g *dmGen) switchStmt(b *dmBlk, s *dmScope, d int) {
 	g.feat("switch")
-	t := pick(g, []*ty{tInt, tString, tInt8, tBool})
+	t := dmPick(g, []*dmTy{dmTInt, dmTString, dmTInt8, dmTBool})
 	if len(g.enums) > 0 && g.chance(1, 2) {
-		t = pick(g, g.enums).t
+		t = dmPick(g, g.enums).t
 	}
 	b.open("switch %s {", g.atom(s, t))
 	n := 1 + g.r.Intn(3)
 	for i := 0; i < n; i++ {
 		var c string
 		switch t.k {
-		case kEnum:
+		case dmKEnum:
 			e := g.enumOf(t)
 			c = t.String() + "." + e.cases[i%len(e.cases)]
-		case kString:
-			c = `"` + strPool[i] + `"`
-		case kBool:
-			c = pick(g, []string{"true", "false"})
+		case dmKString:
+			c = `"` + dmStrPool[i] + `"`
+		case dmKBool:
+			c = dmPick(g, []string{"true", "false"})
 		default:
 			c = g.numLit(t, false)
 		}
@@ -508,8 +508,8 @@ func (g *gen) switchStmt(b *blk, s *scope, d int) {
 	b.close()
 }
 
-func (g *gen) swapStmt(b *blk, s *scope, d int) {
-	mv := s.find(func(v *vr) bool { return v.mut && !v.t.isRes() && v.t.k != kRef && !v.field })
+func (g *dmGen) swapStmt(b *dmBlk, s *dmScope, d int) {
+	mv := s.find(func(v *dmVr) bool { return v.mut && !v.t.isRes() && v.t.k != dmKRef && !v.field })
 	for _, v := range mv {
 		for _, w := range mv {
 			if v != w && v.t.eq(w.t) {
@@ -525,31 +525,31 @@ func (g *gen) swapStmt(b *blk, s *scope, d int) {
 	g.assign(b, s, d)
 }
 
-func (g *gen) nestedFun(b *blk, s *scope, d int) {
+func (g *dmGen) nestedFun(b *dmBlk, s *dmScope, d int) {
 	g.feat("nested-function")
 	name := g.fresh("nf")
 	pt := g.valueType(1)
 	rt := g.valueType(1)
-	if rt.k == kFun {
-		rt = tInt
+	if rt.k == dmKFun {
+		rt = dmTInt
 	}
 	p := g.fresh("a")
 	b.open("fun %s(_ %s: %s): %s {", name, p, pt.String(), rt.String())
-	cs := &scope{parent: s, ctx: &fctx{ret: rt, contract: s.ctx.contract}, depth: s.depth + 1}
-	cs.add(&vr{name: p, t: pt, live: true})
+	cs := &dmScope{parent: s, ctx: &dmFctx{ret: rt, contract: s.ctx.contract}, depth: s.depth + 1}
+	cs.add(&dmVr{name: p, t: pt, live: true})
 	if g.chance(1, 2) {
 		g.stmts(b, cs, 1, d-1)
 	}
 	g.returnStmt(b, cs, d)
 	b.close()
-	s.add(&vr{name: name, t: fun(rt, pt), live: true})
+	s.add(&dmVr{name: name, t: dmFun(rt, pt), live: true})
 }
 
-func (g *gen) callStmt(b *blk, s *scope, d int) {
+func (g *dmGen) callStmt(b *dmBlk, s *dmScope, d int) {
 	// call a void / any function or method for its effect
 	type cand struct {
 		recv string
-		f    *fnDecl
+		f    *dmFnDecl
 	}
 	var cs []cand
 	for _, f := range g.funcs {
@@ -558,12 +558,12 @@ func (g *gen) callStmt(b *blk, s *scope, d int) {
 		}
 	}
 	for _, v := range s.all() {
-		if c := compOf(v.t); c != nil && (!v.t.isRes() || v.live) {
+		if c := dmCompOf(v.t); c != nil && (!v.t.isRes() || v.live) {
 			for _, m := range c.allMethods() {
 				if !g.argsOK(m) || (m.ret != nil && m.ret.isRes()) {
 					continue
 				}
-				if v.t.k == kRef && m.access != "" && !strings.Contains(v.t.auth, m.access) {
+				if v.t.k == dmKRef && m.access != "" && !strings.Contains(v.t.auth, m.access) {
 					continue
 				}
 				cs = append(cs, cand{v.name, m})
@@ -574,48 +574,48 @@ func (g *gen) callStmt(b *blk, s *scope, d int) {
 		g.declare(b, s, g.valueType(1), d)
 		return
 	}
-	c := pick(g, cs)
+	c := dmPick(g, cs)
 	g.feat("call")
 	b.add("%s", g.call(s, c.recv, c.f, d))
 }
 
-func (g *gen) emitStmt(b *blk, s *scope, d int) {
+func (g *dmGen) emitStmt(b *dmBlk, s *dmScope, d int) {
 	if !s.ctx.contract || len(g.events) == 0 {
 		g.declare(b, s, g.valueType(1), d)
 		return
 	}
-	ev := pick(g, g.events)
+	ev := dmPick(g, g.events)
 	g.feat("emit")
 	b.add("emit %s", g.call(s, "", ev, d))
 }
 
 // refStmt: references to local values, reads and (authorized) mutation through them.
-func (g *gen) refStmt(b *blk, s *scope, d int) {
-	vs := s.find(func(v *vr) bool {
-		return !v.t.isRes() && !v.field && (v.t.k == kStruct || v.t.k == kArr || v.t.k == kDict || v.t.k == kInt || v.t.k == kString)
+func (g *dmGen) refStmt(b *dmBlk, s *dmScope, d int) {
+	vs := s.find(func(v *dmVr) bool {
+		return !v.t.isRes() && !v.field && (v.t.k == dmKStruct || v.t.k == dmKArr || v.t.k == dmKDict || v.t.k == dmKInt || v.t.k == dmKString)
 	})
 	if len(vs) == 0 {
 		g.declare(b, s, g.valueType(1), d)
 		return
 	}
-	v := pick(g, vs)
+	v := dmPick(g, vs)
 	g.feat("reference")
 	name := g.fresh("r")
 	switch {
-	case v.t.k == kArr && g.chance(1, 2):
+	case v.t.k == dmKArr && g.chance(1, 2):
 		b.add("let %s = &%s as auth(Mutate) &%s", name, v.name, v.t.String())
 		b.add("%s.append(%s)", name, g.expr(s, v.t.elem, d-1))
 		g.feat("auth-reference")
-		s.add(&vr{name: name, t: aref("Mutate", v.t), live: true})
-	case v.t.k == kDict && g.chance(1, 2):
+		s.add(&dmVr{name: name, t: dmAref("Mutate", v.t), live: true})
+	case v.t.k == dmKDict && g.chance(1, 2):
 		b.add("let %s = &%s as auth(Mutate) &%s", name, v.name, v.t.String())
 		b.add("let %s = %s.remove(key: %s)", g.fresh("rm"), name, g.dictKey(s, v))
 		v.keys = nil
 		g.feat("auth-reference")
 	default:
 		b.add("let %s = &%s as &%s", name, v.name, v.t.String())
-		s.add(&vr{name: name, t: ref(v.t), live: true})
-		if v.t.k == kArr && v.t.elem.k == kStruct && v.minLen > 0 {
+		s.add(&dmVr{name: name, t: dmRef(v.t), live: true})
+		if v.t.k == dmKArr && v.t.elem.k == dmKStruct && v.minLen > 0 {
 			// reference to an element through the container reference
 			b.add("let %s = %s[0]", g.fresh("er"), name)
 		}
@@ -625,7 +625,7 @@ func (g *gen) refStmt(b *blk, s *scope, d int) {
 // grow / shrinkLen keep the known minimal length of an array variable sound: growth only counts when
 // the statement is in the variable's own scope (it certainly executes once), shrinking inside a loop or
 // nested scope forgets the length.
-func (g *gen) grow(s *scope, v *vr) {
+func (g *dmGen) grow(s *dmScope, v *dmVr) {
 	if v == nil {
 		return
 	}
@@ -637,7 +637,7 @@ func (g *gen) grow(s *scope, v *vr) {
 	}
 }
 
-func (g *gen) shrinkLen(s *scope, v *vr) {
+func (g *dmGen) shrinkLen(s *dmScope, v *dmVr) {
 	if v == nil {
 		return
 	}
